@@ -530,6 +530,16 @@ func (s *State) diffIOSACLs(al, bl []*cmd, diff []edit.Range) {
 					if getPrintableCmd(cmdPos.cmd, s.a) != pLog {
 						ignoreOK = false
 					}
+					// If line on device is located behind insert position,
+					// a line with different action that is inserted behind
+					// current line would get in front of the unmoved line
+					// and would split the block between both.
+					if ignoreOK && cmdPos.pos >= r.LowA &&
+						slices.ContainsFunc(bl[r.LowB+i+1:r.HighB], func(c *cmd) bool {
+							return getIOSAction(c) != action0
+						}) {
+						ignoreOK = false
+					}
 					moveACL(cmdPos, b, r.LowA, i, ignoreOK)
 				} else {
 					addACL(b, r.LowA, i)
